@@ -4,4 +4,5 @@ INVARIANTS NoFault
            GuardHolds
            PacketExact
            DestExact
+           BranchExact
 CHECK_DEADLOCK FALSE
